@@ -10,7 +10,7 @@ import sys
 from .. import core, engine, gen
 from ..core import Rng
 from ..engine import Outcome
-from .base import PropBase, STD, exec_args, gen_run, plan_of, not_meta, crashed, crash_text
+from .base import PropBase, STD, exec_args, gen_run, plan_of, not_meta, crashed, crash_text, gen_project_mode, input_args
 from .execsim import gen_cmdline_suppressions, exec_candidates, describe_exec
 
 INVALID = [["--enable=bogus"], ["--std=c77"], ["--platform=nonexistent_platform"], ["-j0"], ["--error-exitcode=abc"],
@@ -71,6 +71,11 @@ class C25(PropBase):
                "cached_rerun": rng.chance(0.5), "die": None, "invalid": rng.sample(INVALID, 2)}
         if rng.chance(0.25):
             scn["die"] = {"worker": 0, "msg": rng.choice([0, 1, 2, 99]), "off": rng.choice([0, 1, 5]), "how": rng.choice(["sig", "exit"]), "arg": rng.choice([11, 6, 3])}
+        scn["project"] = gen_project_mode(rng, proj["units"], 0.15)
+        # The status is only decided by the exitcode suppressions when they cover (nearly) everything that is reported, which a
+        # blind draw almost never achieves: in the "cover" modes the entries are derived from the findings of a probing -j1 run.
+        scn["nofail_mode"] = rng.choice(["given", "given", "cover-all", "cover-all", "cover-all-but-one"])
+        scn["nofail_forms"] = [rng.choice(["id", "id", "id:file"]) for _ in range(12)]
         return scn
 
     def _judge(self, scn, r, how, out, cached):
@@ -100,6 +105,23 @@ class C25(PropBase):
         oargs = gen.flatten_opts(scn.get("opts", {})) + list(scn.get("suppr", []))
         if scn["exitcode"] is not None:
             oargs.append("--error-exitcode=%d" % scn["exitcode"])
+        if scn.get("nofail_mode", "given") != "given":
+            probe = core.run_sim("plain", tree_dir, STD + oargs + ["-j1"] + input_args(scn, units, tree_dir, wd, "cdbp"), plan=None, tag="probe",
+                                 strip=tree_dir if scn.get("project") else None)
+            out.runs += 1
+            seen = []
+            for f in probe.findings:
+                if f.id in core.META_IDS:
+                    continue
+                form = scn["nofail_forms"][len(seen) % len(scn["nofail_forms"])]
+                pf = f.locs[0][0] if f.locs else ""
+                e = f.id if form == "id" or not pf or scn.get("project") else "%s:%s" % (f.id, pf)
+                if e not in seen and f.id not in [x.split(":")[0] for x in seen]:
+                    seen.append(e)
+            if scn["nofail_mode"] == "cover-all-but-one" and seen:
+                del seen[len(seen) // 2]
+            scn = dict(scn); scn["nofail"] = sorted(set(seen))
+            out.probe("nofail_" + scn["nofail_mode"])
         if scn["nofail"]:
             with open(os.path.join(wd, "nofail.txt"), "w") as f:
                 f.write("\n".join(scn["nofail"]) + "\n")
@@ -113,13 +135,14 @@ class C25(PropBase):
             run = dict(run)
             if scn.get("die") and run["exec"] == "process" and i == 0:
                 run["die"] = [scn["die"]]
-            args = STD + oargs + b + exec_args(run) + units
-            r = core.run_sim("plain", tree_dir, args, plan=plan_of(run), roots=roots, workdir=wd, tag="sub%d" % i)
+            strip = tree_dir if scn.get("project") else None
+            args = STD + oargs + b + exec_args(run) + input_args(scn, units, tree_dir, wd, "cdb")
+            r = core.run_sim("plain", tree_dir, args, plan=plan_of(run), roots=roots, workdir=wd, tag="sub%d" % i, strip=strip)
             out.account(r)
             self._judge(scn, r, " ".join(exec_args(run)) + (" +bd" if b else "") + (" +worker-death" if run.get("die") else ""), out, False)
             if b and scn.get("cached_rerun"):
                 run2 = dict(run); run2.pop("die", None)
-                r2 = core.run_sim("plain", tree_dir, args, plan=plan_of(run2), roots=roots, workdir=wd, tag="sub%dc" % i)
+                r2 = core.run_sim("plain", tree_dir, args, plan=plan_of(run2), roots=roots, workdir=wd, tag="sub%dc" % i, strip=strip)
                 out.account(r2)
                 self._judge(scn, r2, " ".join(exec_args(run)) + " +bd (second run)", out, True)
         for inv in scn.get("invalid", []):
